@@ -478,7 +478,11 @@ fn eval(schema: &Value, private: bool) -> Result<Good, Bad> {
             Some(Value::String(t)) => {
                 if schema.get("properties").is_none() {
                     "title-without-properties"
-                } else if t.is_empty() || !t.chars().all(|c| c.is_alphanumeric() || c == '_' || c == '.') {
+                } else if !t.chars().all(|c| c.is_alphanumeric() || c == '_' || c == '.' || c == '-')
+                    || !t.chars().next().map(|c| c.is_alphanumeric() || c == '_').unwrap_or(true)
+                    || !t.chars().last().map(|c| c.is_alphanumeric() || c == '_').unwrap_or(true)
+                {
+                    // characters the doc lexer does not take as part of a type name: the unescaped-name family
                     "title-not-a-name"
                 } else {
                     "other"
@@ -565,7 +569,11 @@ pub fn run(ctx: &mut Ctx) {
                 }
                 // Shrink while the same *clause* fails, then classify the minimal schema (the discriminator
                 // of an unshrunk schema would name the most exotic character anywhere in it, not the trigger).
-                let small = shrink_json(&schema, |c| c.is_object() && matches!(eval(c, private), Err(b2) if b2.sig.split(':').nth(1) == Some(clause.as_str())), 400);
+                // The root-type clause is classified by the title alone, which is reliable before shrinking: there the
+                // whole signature has to be preserved, or every titled witness slips to the title-less schema.
+                let whole = clause == "root-type-undeclared";
+                let sig0 = b.sig.clone();
+                let small = shrink_json(&schema, |c| c.is_object() && matches!(eval(c, private), Err(b2) if if whole { b2.sig == sig0 } else { b2.sig.split(':').nth(1) == Some(clause.as_str()) }), 400);
                 let b2 = eval(&small, private).err().unwrap_or(b);
                 ctx.violated(&b2.sig, &format!("{}; shrunk schema {}", b2.detail, clip(&small.to_string(), 400)), json!({"schema": small, "private": private}));
             }
